@@ -13,6 +13,8 @@ package types
 // else relies on it)
 //@ typeinv XArray: self.data != nil || self.source != nil
 //@ typeinv XObject: self.props != nil || self.source != nil
+// an error value always wraps an error (NewXError is only handed errors that exist)
+//@ typeinv XError: !isnil(self.native)
 
 // history token: x.Call(env, params) returned `result` for a parameter list starting with `first`
 //@ pure fnCalled(x *XFunction, first XValue, result XValue) bool
@@ -46,10 +48,10 @@ package types
 //@   assigns nothing
 //@   ensures result != nil
 //@ func NewXError
+//@   requires [wraps_an_error] !isnil(err)
 //@   assigns nothing
 //@   ensures result != nil
 //@ func NewXErrorf
-//@   havocs Errorf
 //@   assigns nothing
 //@   ensures result != nil
 //@ func NewXBoolean
